@@ -19,7 +19,11 @@ R-ADDFIRST  every insertion into the table is non-overwriting and dominated, on 
             containment test of the same key with negative outcome; in the add path the positive
             outcome returns the repeated-name code (== 2 as documented in mujoco.h) with no write to
             the table or through the found entry before that return; the C wrappers return that
-            status unchanged.
+            status unchanged.  The containment test is `contains(k)`, `count(k)` (bare or compared with 0) or
+            `find(k) != end()` alike; k is compared after never-reassigned locals / references that alias the key
+            expression are expanded; the outcome may reach the branch through a bool local (initialised or assigned,
+            e.g. inside a lock scope and tested after it), which stands for the test until it is given another value or
+            the table changes.
 R-DELRESULT the unmount path returns success only on paths that erased the entry it found and a
             failure code (== -1 as documented) on every path where the lookup found nothing;
             mj_unmountVFS / mj_deleteFileVFS return values derived from that result only.
@@ -51,10 +55,17 @@ R-DERIVED   derived-state coherence.  Every data member of the class other than 
             read back) is part of the evidence, and a fixed miniature class (built as IR, independent of /repo) with a
             forgotten memo must be reported on every run, so the rule cannot pass by matching nothing.
 R-READBACK  the buffer provider's read callback (a lambda, or a named function / static member
-            function of the file, stored in `read`) returns data()/size() of one member of the
-            provider object reached from the resource; that member is written only in the
-            provider's constructors (which copy exactly the n source bytes); VFS::Read and
-            mju_readResource pass buffer pointer and result through unchanged.
+            function of the file, stored in `read`) returns data()/size() of one and the same member of the
+            provider object reached from the resource -- held by value or through one dereference (`->`, `*`,
+            `.get()`: raw or smart pointer); that member is written only in the provider's constructors; the buffer
+            constructor copies exactly the n source bytes (counted loop appending src[i], or a range copy of
+            [src, src + n), into the member or into a local / temporary that is stored into it);
+            contents-private-copy: in every constructor the member is given a value built there (container filled in
+            place, by-value result of a reading function, make_unique / make_shared / new, a local object, the fresh result
+            of a function of the file) and never one that derives -- by data flow or under control of a lookup -- from an
+            object with static storage duration (a pool shared between providers: with a content digest as key, which
+            bytes a present name returns would depend on hash collisions and on what other providers hold);
+            VFS::Read and mju_readResource pass buffer pointer and result through unchanged.
 Not decided: behaviour over histories (which of several entries a prefix/legacy lookup picks),
 derived state kept outside the class (file-level statics, provider objects), caches that are re-validated on read or
 invalidated through a second member (reported as "cannot decide"), counters (++/--) as derived state,
@@ -691,6 +702,27 @@ def assigned_vars(fn_node):
     return out
 
 
+_ADDR = {}
+
+
+def address_taken(fn_node):
+    """ids of locals whose address is taken or that are bound to a non-const reference (they can change behind the name)."""
+    got = _ADDR.get(id(fn_node))
+    if got is None:
+        got = set()
+        for x in cxx2.walk(fn_node):
+            if x.get("k") == "UnaryOperator" and x.get("op") == "&":
+                t = cxx2.skip(cir.kids(x)[0])
+                if t is not None and t.get("k") == "DeclRefExpr":
+                    got.add((t.get("ref") or {}).get("id"))
+            if x.get("k") == "VarDecl" and "&" in (x.get("t") or "") and not (x.get("t") or "").startswith("const "):
+                for y in cxx2.walk(x):
+                    if y.get("k") == "DeclRefExpr" and (y.get("ref") or {}).get("k") == "VarDecl":
+                        got.add(y["ref"].get("id"))
+        _ADDR[id(fn_node)] = got
+    return got
+
+
 def stable_expand(fn_node, e):
     """Replace a never-reassigned local by its initialiser when that initialiser only mentions
     never-reassigned variables (so both denote the same value everywhere in the function)."""
@@ -741,6 +773,15 @@ def presence_test(W, s, defs, fn_node=None):
                     args = W.call_args(s)
                     if inner[1] in names and names.index(inner[1]) < len(args):
                         return inner[0], keytext(fn_node, args[names.index(inner[1])]), inner[2] != neg
+    if s.get("k") == "BinaryOperator" and s.get("op") in ("==", "!=", ">", "<"):
+        # `table.count(k) != 0`, `table.count(k) > 0`, `0 == table.count(k)`: the same test as the bare call
+        a, b = (cxx2.skip(x) for x in cir.kids(s))
+        for x, y, first in ((a, b, True), (b, a, False)):
+            if x is not None and x.get("k") == "CXXMemberCallExpr" and cxx2.is_zero_literal(y) and \
+                    (s.get("op") in ("==", "!=") or (s.get("op") == ">") == first):
+                inner = presence_test(W, x, defs, fn_node)
+                if inner is not None:
+                    return inner[0], inner[1], inner[2] == (s.get("op") != "==")
     if s.get("k") == "CXXOperatorCallExpr" and cxx2.op_name(s) in ("==", "!="):
         a, b = (cxx2.skip(x) for x in cxx2.op_args(s))
         sides = []
@@ -789,8 +830,9 @@ class AddRule(paths.Rule):
             defs = frozenset(d for d in defs if d[0] != node.get("id"))
             if ta and ta[1] == "find":
                 defs = defs | {(node.get("id"), ta[0], keytext(self.fn.node, ta[2]))}
-            elif e is not None and node.get("id") not in assigned_vars(self.fn.node):
-                # `const bool known = table.contains(k);` -- the local stands for the test until the table changes
+            elif e is not None and node.get("id") not in address_taken(self.fn.node):
+                # `const bool known = table.contains(k);` -- the local stands for the test until the table changes or the
+                # local is given another value (see the assignment case below)
                 core, neg = cxx2.cond_core(e)
                 pt = presence_test(self.W, core, {d[0]: (d[1], d[2]) for d in defs if len(d) == 3}, self.fn.node)
                 if pt is not None:
@@ -803,8 +845,18 @@ class AddRule(paths.Rule):
         tgt = cir.strip(c[0]) if c else None
         if tgt is not None and tgt.get("k") == "DeclRefExpr":
             nm = (tgt.get("ref") or {}).get("n")
+            vid = (tgt.get("ref") or {}).get("id")
             facts = frozenset(f for f in facts if nm not in cxx2.words(f[1]))
-            defs = frozenset(d for d in defs if len(d) == 3 or nm not in cxx2.words(d[2]))
+            # the local gets a new value: what it stood for is gone; `known = table.find(k) != table.end();` (declared
+            # earlier, assigned inside a lock scope, tested after it) makes it stand for that test from here on
+            defs = frozenset(d for d in defs if d[0] != vid and (len(d) == 3 or nm not in cxx2.words(d[2])))
+            if node.get("k") == "BinaryOperator" and node.get("op") == "=" and (tgt.get("ref") or {}).get("k") == "VarDecl" \
+                    and vid not in address_taken(self.fn.node):
+                core, neg = cxx2.cond_core(c[1])
+                pt = presence_test(self.W, core, {d[0]: (d[1], d[2]) for d in defs if len(d) == 3}, self.fn.node) \
+                    if core is not None else None
+                if pt is not None:
+                    defs = defs | {(vid, pt[0], pt[1], pt[2] != neg)}
         return (facts, defs, mut)
 
     def branch(self, st, cond, taken, ctx):
@@ -1250,6 +1302,300 @@ def callback_of(W, fn_node, e, hops=0):
     return None
 
 
+def member_through_deref(o, fields):
+    """The MemberExpr of a data member (one of `fields`) that the object expression o designates: the member itself, or
+    what it points to through one dereference (`*m`, `m->`, `m.get()`, built-in or overloaded) -- a byte container held
+    by value, by raw pointer or by a smart pointer is read the same way."""
+    o = cxx2.skip(o)
+    steps = 0
+    while o is not None and steps < 3:
+        k = o.get("k")
+        if k == "MemberExpr" and o.get("mid") in fields and o.get("t") != "<bound member function type>":
+            return o
+        steps += 1
+        if k == "CXXOperatorCallExpr" and cxx2.op_name(o) in ("->", "*") and len(cxx2.op_args(o)) == 1:
+            o = cxx2.skip(cxx2.op_args(o)[0])
+        elif k == "UnaryOperator" and o.get("op") == "*":
+            o = cxx2.skip(cir.kids(o)[0])
+        elif k == "CXXMemberCallExpr" and (cxx2.receiver(o) or (None, None, None))[2] == "get" and not cxx2.real_args(o)[1:]:
+            o = cxx2.skip(cxx2.receiver(o)[0])
+        else:
+            return None
+    return None
+
+
+def is_handle_type(t, dt=None):
+    """the type refers to an object instead of containing it (raw / smart pointer, iterator, view)"""
+    sp = dt or t or ""
+    return "_ptr<" in sp or cxx2.carries_alias(t, dt)
+
+
+def static_storage_vars(W):
+    """{VarDecl id: name} of the mutable objects with static storage duration visible in the TU file: namespace-scope
+    variables, static data members and function-local statics (constants excluded)."""
+    out = {}
+
+    def take(v):
+        t = (v.get("t") or "").strip()
+        if not t.startswith("const ") and not v.get("constexpr") and "mutex" not in t:
+            out[v.get("id")] = v.get("n")
+    for d, ns in cxx2.all_decls(W.ir["decls"]):
+        if d.get("k") == "VarDecl" and (d.get("file") == TU or d.get("nfile") == TU):
+            take(d)
+        if d.get("k") == "CXXRecordDecl" and d.get("file") == TU:
+            for c in cir.kids(d):
+                if c and c.get("k") == "VarDecl" and c.get("storageClass") == "static":
+                    take(c)
+    for f in W.fns:
+        for x in cxx2.walk(f.node):
+            if x.get("k") == "VarDecl" and x.get("storageClass") == "static":
+                take(x)
+    return out
+
+
+def member_stores(BP, m, fid):
+    """[(node, [stored expressions])] for the places of constructor / method m that give the member itself a value
+    (`member = e`, `member.reset(e)`), and [(node, method)] for calls that build the held container in place."""
+    whole, inplace = [], []
+    for x in cxx2.walk(m.node):
+        ap = cxx2.assignment_parts(x)
+        if ap is not None and ap[2] == "=":
+            t = cxx2.skip(ap[0])
+            if t is not None and t.get("k") == "MemberExpr" and t.get("mid") == fid:
+                whole.append((x, [ap[1]]))
+            continue
+        if x.get("k") == "CXXMemberCallExpr":
+            r = cxx2.receiver(x)
+            if not r or r[0] is None:
+                continue
+            t = cxx2.skip(r[0])
+            direct = t is not None and t.get("k") == "MemberExpr" and t.get("mid") == fid
+            if direct and r[2] in ("reset", "swap") and cxx2.real_args(x)[1:] and is_handle_type(t.get("t"), t.get("dt")):
+                whole.append((x, cxx2.real_args(x)[1:]))
+            elif member_through_deref(r[0], {fid}) is not None and r[2] in (
+                    "push_back", "emplace_back", "assign", "insert", "append", "resize", "reserve"):
+                inplace.append((x, r[2]))
+    return whole, inplace
+
+
+def copies_n_bytes(BP, m, fid):
+    """The constructor copies exactly the bytes [src, src + n) of its buffer argument into what the member holds: a loop
+    counting i from 0 to n that appends src[i], or an iterator-range construction / assign / insert over (src, src + n) --
+    on the member itself (directly or through one dereference), or on a local / temporary that is then stored into it
+    (possibly wrapped: std::move, make_unique / make_shared, an argument of a function whose result is stored)."""
+    ps = m.params()
+    src = {p.get("id") for p in ps if re.search(r"const void \*", p.get("t") or "")}
+    cnt = {p.get("id") for p in ps if re.search(r"size_t|int|long", p.get("t") or "") and "*" not in (p.get("t") or "")}
+    whole, _ = member_stores(BP, m, fid)
+    stored = [v for _, vs in whole for v in vs]
+
+    def is_src(e):
+        b = passthrough_var(m.node, e)
+        return b is not None and b.get("k") == "DeclRefExpr" and (b.get("ref") or {}).get("id") in src
+
+    def is_cnt(e):
+        b = passthrough_var(m.node, e)
+        return b is not None and b.get("k") == "DeclRefExpr" and (b.get("ref") or {}).get("id") in cnt
+
+    def is_end(e):
+        e = cxx2.skip(e)
+        if e is None or e.get("k") != "BinaryOperator" or e.get("op") != "+":
+            return False
+        a, b = cir.kids(e)
+        return (is_src(a) and is_cnt(b)) or (is_cnt(a) and is_src(b))
+
+    def reaches_member(target):
+        """target: ("member",) | ("local", var id) | ("node", expression node)"""
+        if target[0] == "member":
+            return True
+        for v in stored:
+            for y in cxx2.walk(v):
+                if target[0] == "node" and y is target[1]:
+                    return True
+                if target[0] == "local" and y.get("k") == "DeclRefExpr" and (y.get("ref") or {}).get("id") == target[1]:
+                    return True
+        return False
+
+    def target_of(obj):
+        if member_through_deref(obj, {fid}) is not None:
+            return ("member",)
+        o = cxx2.skip(obj)
+        if o is not None and o.get("k") == "DeclRefExpr" and (o.get("ref") or {}).get("k") == "VarDecl" and \
+                not is_handle_type(o.get("t"), o.get("dt")):
+            return ("local", o["ref"].get("id"))
+        return None
+    detail = "no loop appending the source bytes and no range copy of [src, src + n) found"
+    # range forms
+    for x in cxx2.walk(m.node):
+        k = x.get("k")
+        args, target = None, None
+        if k in ("CXXConstructExpr", "CXXTemporaryObjectExpr"):
+            args, target = cxx2.real_args(x), ("node", x)
+        elif k == "CallExpr" and cir.callee(x) in ("make_unique", "make_shared"):
+            args, target = cxx2.real_args(x)[1:], ("node", x)
+        elif k == "CXXMemberCallExpr":
+            r = cxx2.receiver(x)
+            if r and r[2] in ("assign", "insert", "append") and r[0] is not None:
+                args, target = cxx2.real_args(x)[1:], target_of(r[0])
+        if not args or target is None:
+            continue
+        pair = any(is_src(a) and is_end(b) for a, b in zip(args, args[1:]))
+        if not pair:
+            continue
+        if target[0] == "node":       # `T local(src, src + n);` / `T local = T(src, src + n);`: the local is the target
+            for d in cxx2.walk(m.node):
+                if d.get("k") == "VarDecl" and any(y is x for c in cir.kids(d) if c is not None for y in cxx2.walk(c)) and \
+                        not is_handle_type(d.get("t"), d.get("dt")):
+                    if reaches_member(("local", d.get("id"))):
+                        return True, "range copy into a local that is stored into the member"
+        if reaches_member(target):
+            return True, "range copy of [src, src + n)"
+        detail = "a range copy of [src, src + n) is made but its result is not what the member is given"
+    # loop form
+    for lp in cxx2.walk(m.node):
+        if lp.get("k") not in ("ForStmt", "WhileStmt"):
+            continue
+        pushes_any = [x for x in cxx2.walk(lp) if x.get("k") == "CXXMemberCallExpr" and
+                      (cxx2.receiver(x) or (None, None, None))[2] == "push_back" and
+                      target_of(cxx2.receiver(x)[0]) is not None]
+        # `for (i = 0; i < n; i++) S` and `i = 0; while (i < n) { S; i++; }` are the same counted loop
+        L = cxx2.index_loop(m.node, lp)
+        if L is None:
+            if any(target_of(cxx2.receiver(x)[0]) == ("member",) for x in pushes_any):
+                raise AnalysisError(f"{m.qual}: the loop at line {lp.get('line')} appends to `{BP.fname(fid)}` but is "
+                                    f"not of a form read as a loop counting an index up by one")
+            continue
+        i_id = L["var"]
+        starts0 = cxx2.is_zero_literal(L["start"])
+        bound_ok = is_cnt(L["bound"])
+        body = {"k": "CompoundStmt", "i": L["body"]}
+        pushes = [x for x in cxx2.walk(body) if any(x is y for y in pushes_any)]
+        if len(pushes) != 1:
+            continue
+        target = target_of(cxx2.receiver(pushes[0])[0])
+        a = cxx2.skip(cxx2.real_args(pushes[0])[1])
+        elem_ok = a is not None and a.get("k") == "ArraySubscriptExpr" and \
+            (cxx2.skip(cir.kids(a)[1]).get("ref") or {}).get("id") == i_id
+        base_ok = elem_ok and is_src(cir.kids(a)[0])
+        other = [x for x in cxx2.walk(body) if x.get("k") == "CXXMemberCallExpr" and x is not pushes[0] and
+                 (cxx2.receiver(x) or (None,))[0] is not None and target_of(cxx2.receiver(x)[0]) == target]
+        if starts0 and bound_ok and base_ok and not other:
+            if reaches_member(target):
+                return True, "loop appending src[i] for i in [0, n)"
+            detail = "the loop copies the source bytes into a local that is not what the member is given"
+        else:
+            detail = (f"loop does not append src[i] for i in [0, n): start0={starts0} bound={bound_ok} element={base_ok}")
+    return False, detail
+
+
+def check_private_copy(res, W, BP, fid):
+    """The bytes a provider hands out are its own copy of what the add call was given: in every constructor the member the
+    read callback reads from is given a value that is built there (a container filled / constructed in place, the by-value
+    result of a reading function, a fresh owner from make_unique / make_shared / new, a local object) -- never one that
+    derives from storage with static duration (a pool shared between providers, whatever its key: with a digest as key,
+    which bytes a name returns depends on hash collisions and on what other providers hold)."""
+    construct = f"{BP.name}:contents-private-copy"
+    statics = static_storage_vars(W)
+    flow = cxx2.MemberFlow(W.fns, set(), W.callee, seed_vars=set(statics))
+    fname = BP.fname(fid)
+    fd = BP.fields[fid]
+    handle = is_handle_type(fd.get("t"), fd.get("dt"))
+
+    def shared_via(e, f):
+        """names of the functions / static objects through which e derives from static storage"""
+        out = []
+        for x in cxx2.walk(e):
+            if x.get("k") == "DeclRefExpr" and (x.get("ref") or {}).get("id") in statics:
+                out.append(f"static `{statics[x['ref']['id']]}`")
+            if x.get("k") in ("CallExpr", "CXXMemberCallExpr"):
+                g = W.callee(x)
+                if g is not None and flow.ret.get(id(g)):
+                    names = sorted({statics[y["ref"]["id"]] for y in cxx2.walk(g.node) if y.get("k") == "DeclRefExpr" and
+                                    (y.get("ref") or {}).get("id") in statics})
+                    gq = f"{g.cls.name}::{g.name}" if getattr(g, "cls", None) is not None else g.name
+                    out.append(f"{gq}()" + (f", which returns what it finds in / keeps in static `{', '.join(names)}`"
+                                               if names else ", whose result derives from static storage"))
+        return out or ["static storage"]
+
+    def fresh(e, f, depth=0):
+        """True: e is an object / owner built here; None: cannot tell"""
+        e = cxx2.skip(e)
+        if e is None or depth > 6:
+            return None
+        k = e.get("k")
+        if k == "CXXNewExpr":
+            return True
+        if k in ("CXXConstructExpr", "CXXTemporaryObjectExpr", "InitListExpr"):
+            if is_handle_type(e.get("t"), e.get("dt")):
+                a = cxx2.real_args(e)
+                return fresh(a[0], f, depth + 1) if len(a) == 1 else (True if not a else None)
+            return True
+        if k == "DeclRefExpr":
+            r = e.get("ref") or {}
+            if r.get("k") == "VarDecl" and r.get("id") not in statics:
+                if not is_handle_type(e.get("t"), e.get("dt")):
+                    return True
+                vl = cxx2.value_locals(f.node).get(r.get("id"))
+                return fresh(vl[1], f, depth + 1) if vl is not None else None
+            return None
+        if k in ("CallExpr", "CXXMemberCallExpr"):
+            nm = cir.callee(e)
+            if nm in ("move", "forward") and cxx2.real_args(e)[1:]:
+                return fresh(cxx2.real_args(e)[1], f, depth + 1)
+            if nm in ("make_unique", "make_shared"):
+                return True
+            g = W.callee(e)
+            if g is not None and cir.body(g.node) is not None:
+                rets = [r for _, r in returns_of(g.node)]
+                if rets and all(r is not None and fresh(r, g, depth + 1) for r in rets):
+                    return True
+                return None
+            if not is_handle_type(e.get("t"), e.get("dt")) and "&" not in (e.get("t") or ""):
+                return True            # a by-value result that contains its bytes is a separate object
+        return None
+    ctors = [m for m in BP.methods.values() if m.kind == "CXXConstructorDecl" and m.node is not None and not m.implicit
+             and not m.defaulted and not m.deleted and m.params() and
+             not any(BP.name in (p.get("t") or "") for p in m.params())]
+    if not ctors:
+        raise AnalysisError(f"{BP.name}: no constructor with a body found")
+    bad, undecided, oks = [], [], []
+    for m in ctors:
+        f = W.by_decl.get(m.id)
+        if f is None:
+            raise AnalysisError(f"{m.qual}: constructor not among the analysed functions")
+        whole, inplace = member_stores(BP, m, fid)
+        inits = [c for c in cir.kids(m.node) if c is not None and c.get("k") == "CXXCtorInitializer"]
+        for c in inits:
+            if flow.mentions(c, f):
+                bad.append((m, c, shared_via(c, f)))
+        if not whole and not (inplace and not handle):
+            undecided.append((m, f"no statement of the constructor gives `{fname}` its bytes"))
+            continue
+        for x, vals in whole:
+            if any(flow.mentions(v, f) for v in vals):
+                bad.append((m, x, [w for v in vals for w in shared_via(v, f)]))
+            elif not all(fresh(v, f) for v in vals):
+                undecided.append((m, f"`{etext(x)}` is not read as a value built in the constructor"))
+            else:
+                oks.append(m)
+        for x, op in inplace:
+            if any(flow.mentions(a, f) for a in cxx2.real_args(x)[1:]):
+                bad.append((m, x, [w for a in cxx2.real_args(x)[1:] for w in shared_via(a, f)]))
+            elif not handle:
+                oks.append(m)
+    if bad:
+        m, x, via = bad[0]
+        res.bad("R-READBACK", construct, TU, x.get("line") or m.line,
+                f"{m.qual} does not give `{fname}` (the member the read callback returns) a copy of its own: the value comes "
+                f"through {'; '.join(dict.fromkeys(via))} -- storage shared between providers, so the bytes read for a "
+                f"present name can be those added under another name")
+    elif undecided:
+        m, why = undecided[0]
+        raise AnalysisError(f"R-READBACK: {construct}: cannot decide for {m.qual}: {why}")
+    else:
+        res.ok("R-READBACK", construct, {"constructors": sorted({m.qual for m in oks}), "held": "by handle" if handle else "by value"})
+
+
 def check_read(res, W):
     res.rule("R-READBACK", "the buffer provider's read callback returns data()/size() of one member written only by the "
              "provider's constructors; VFS::Read and mju_readResource pass pointer and size through", floor=6)
@@ -1308,8 +1654,8 @@ def check_read(res, W):
             r = cxx2.receiver(e)
             if not r or r[2] != meth:
                 return None
-            o = cxx2.skip(r[0])
-            if o is None or o.get("k") != "MemberExpr" or o.get("mid") not in BP.fields:
+            o = member_through_deref(r[0], BP.fields)
+            if o is None:
                 return None
             b = cxx2.skip(cir.kids(o)[0])
             if b is not None and b.get("k") == "DeclRefExpr" and (b.get("ref") or {}).get("id") in selfs and \
@@ -1342,16 +1688,18 @@ def check_read(res, W):
             for x in cxx2.walk(m.node):
                 if x.get("k") == "CXXMemberCallExpr":
                     r = cxx2.receiver(x)
-                    if r and r[2] in MUT and r[0] is not None:
-                        o = cxx2.skip(r[0])
-                        if o is not None and o.get("k") == "MemberExpr" and o.get("mid") == fid:
+                    if r and r[2] in MUT + ("reset", "release") and r[0] is not None:
+                        o = member_through_deref(r[0], {fid})
+                        if o is not None:
                             if r[2] == "data" and "const" in (cxx2.skip(r[0]).get("t") or ""):
                                 continue
                             writes.append((x, r[2]))
                 if x.get("k") == "CXXOperatorCallExpr" and cxx2.op_name(x) in ("=", "[]"):
-                    o = cxx2.skip(cxx2.op_args(x)[0])
-                    if o is not None and o.get("k") == "MemberExpr" and o.get("mid") == fid:
+                    if member_through_deref(cxx2.op_args(x)[0], {fid}) is not None:
                         writes.append((x, "operator" + cxx2.op_name(x)))
+                if x.get("k") == "BinaryOperator" and x.get("op") == "=" and \
+                        member_through_deref(cir.kids(x)[0], {fid}) is not None:
+                    writes.append((x, "="))
             if m.kind == "CXXConstructorDecl":
                 continue
             real = [w for w in writes if not (w[1] == "data" and any(w[0] is o or True for o in ()))]
@@ -1367,51 +1715,15 @@ def check_read(res, W):
         for m in BP.methods.values():
             if m.kind != "CXXConstructorDecl" or m.node is None or m.implicit or m.defaulted:
                 continue
-            ps = m.params()
-            src = [p for p in ps if re.search(r"const void \*", p.get("t") or "")]
-            if not src:
+            if not [p for p in m.params() if re.search(r"const void \*", p.get("t") or "")]:
                 continue
-            cnt = [p for p in ps if re.search(r"size_t|int", p.get("t") or "") and "*" not in (p.get("t") or "")]
             construct = f"{m.qual}:copies-n-bytes"
-            good = False
-            detail = "no loop appending source bytes found"
-            for lp in cxx2.walk(m.node):
-                if lp.get("k") not in ("ForStmt", "WhileStmt"):
-                    continue
-                # `for (i = 0; i < n; i++) S` and `i = 0; while (i < n) { S; i++; }` are the same counted loop
-                L = cxx2.index_loop(m.node, lp)
-                if L is None:
-                    if any(x.get("k") == "CXXMemberCallExpr" and (cxx2.receiver(x) or (None, None, None))[2] == "push_back"
-                           and cxx2.field_of(cxx2.receiver(x)[0]) == fid for x in cxx2.walk(lp)):
-                        raise AnalysisError(f"{m.qual}: the loop at line {lp.get('line')} appends to `{BP.fname(fid)}` but is "
-                                            f"not of a form read as a loop counting an index up by one")
-                    continue
-                i_id = L["var"]
-                starts0 = cxx2.is_zero_literal(L["start"])
-                bound_ok = (cxx2.skip(L["bound"]).get("ref") or {}).get("id") in {p.get("id") for p in cnt}
-                inc_ok = True
-                body = {"k": "CompoundStmt", "i": L["body"]}
-                pushes = [x for x in cxx2.walk(body) if x.get("k") == "CXXMemberCallExpr" and
-                          (cxx2.receiver(x) or (None, None, None))[2] == "push_back" and
-                          cxx2.field_of(cxx2.receiver(x)[0]) == fid]
-                if len(pushes) == 1:
-                    a = cxx2.skip(cxx2.real_args(pushes[0])[1])
-                    elem_ok = a is not None and a.get("k") == "ArraySubscriptExpr" and \
-                        (cxx2.skip(cir.kids(a)[1]).get("ref") or {}).get("id") == i_id
-                    base = passthrough_var(m.node, cir.kids(a)[0]) if elem_ok else None
-                    base_ok = elem_ok and base is not None and base.get("k") == "DeclRefExpr" and \
-                        (base.get("ref") or {}).get("id") in {p.get("id") for p in src}
-                    other = [x for x in cxx2.walk(body) if x.get("k") == "CXXMemberCallExpr" and x is not pushes[0] and
-                             cxx2.field_of((cxx2.receiver(x) or (None,))[0]) == fid]
-                    if starts0 and bound_ok and inc_ok and base_ok and not other:
-                        good = True
-                    else:
-                        detail = (f"loop does not append src[i] for i in [0, n): start0={starts0} bound={bound_ok} "
-                                  f"inc={inc_ok} element={base_ok}")
+            good, detail = copies_n_bytes(BP, m, fid)
             if good:
-                res.ok("R-READBACK", construct, {"line": m.line})
+                res.ok("R-READBACK", construct, {"line": m.line, "how": detail})
             else:
                 res.bad("R-READBACK", construct, TU, m.line, detail)
+        check_private_copy(res, W, BP, fid)
     # the opened resource carries the provider of the mount found for the (normalised) path
     op = [f for f in W.fns if f.kind == "method" and f.cls is W.vfs and f.name == "Open"][0]
     internal = {id(f): f for f in W.fns if f.kind == "method" and f.cls is W.vfs and f.access != "public"}
@@ -2670,6 +2982,50 @@ _DEL_IMPL = ("  mujoco::user::VFS* impl = mujoco::user::VFS::Upcast(vfs);\n  if 
              "    mju_error(\"mjVFS is null.\");\n    return mujoco::user::VFS::kInvalidVfs;\n  }\n"
              "  const mujoco::user::FilePath path(filename);\n")
 _DEL_FN = "int mj_deleteFileVFS(mjVFS* vfs, const char* filename) {\n"
+
+# R-READBACK: other ways to hold the bytes (the pool variant is /tmp/seedwork5_C39/buffer-content-dedup in small)
+_READ_DIRECT = ("      *out = reinterpret_cast<void*>(self->contents_.data());\n"
+                "      return static_cast<int>(self->contents_.size());\n")
+_READ_ARROW = ("      *out = self->contents_->data();\n      return static_cast<int>(self->contents_->size());\n")
+_FILE_CTOR = ("    contents_ = mujoco::user::FileToMemory(file_path.c_str());\n\n"
+              "    static constexpr std::uint64_t prime = 0x100000001b3;\n\n"
+              "    hash_ = contents_.empty() ? 0 : 0xcbf29ce484222325;\n"
+              "    for (const std::uint8_t& byte : contents_) {\n")
+_BUF_CTOR = ("    contents_.reserve(n);\n" + _COPY_FOR)
+_MEMBER = "  std::vector<std::uint8_t> contents_;\n"
+_HASH_LOOP = ("    for (size_t i = 0; i < n; i++) {\n      hash_ |= src_bytes[i];\n      hash_ *= prime;\n    }\n")
+_POOL = ("class ContentPool {\n public:\n  using Contents = std::vector<std::uint8_t>;\n"
+         "  using Handle   = std::shared_ptr<const Contents>;\n"
+         "  static Handle Intern(Contents&& contents, std::uint64_t hash) {\n"
+         "    static std::mutex mutex;\n"
+         "    static std::unordered_multimap<std::uint64_t, std::weak_ptr<const Contents>> pool;\n"
+         "    std::lock_guard<std::mutex> lock(mutex);\n"
+         "    auto [first, last] = pool.equal_range(hash);\n"
+         "    for (auto it = first; it != last; ++it) {\n      Handle stored = it->second.lock();\n"
+         "      if (stored && stored->size() == contents.size()) { return stored; }\n    }\n"
+         "    Handle handle = std::make_shared<const Contents>(std::move(contents));\n"
+         "    pool.emplace(hash, handle);\n    return handle;\n  }\n};\n\n")
+_PROVIDER_AT = "// Custom provider for mj_addFileVFS and mj_addBufferVFS.\n"
+
+
+def _held(member, file_ctor, buf_ctor, pre=""):
+    """edits that change how BufferProvider holds its bytes: member declaration, both constructors, the read callback"""
+    return [(_V, _MEMBER, member), (_V, _READ_DIRECT, _READ_ARROW), (_V, _FILE_CTOR, file_ctor), (_V, _BUF_CTOR, buf_ctor)] + \
+        ([(_V, _PROVIDER_AT, pre + _PROVIDER_AT)] if pre else [])
+
+
+_VEC = "std::vector<std::uint8_t>"
+# the shape of /verif/refactors/F-p3: key bound to a reference, outcome of the test assigned to a bool inside the lock scope
+class _Fp3:
+    def __mod__(self, test):
+        return [(_V, "  {\n    std::lock_guard<std::mutex> lock(mutex_);\n    " + _TEST + "\n  }\n",
+                 "  const std::string& key = path.Str();\n  bool repeated = false;\n  {\n"
+                 "    std::lock_guard<std::mutex> lock(mutex_);\n    " + test + "\n  }\n"
+                 "  if (repeated) { return kRepeatedName; }\n"),
+                (_V, "mounts_.emplace(path.Str(), std::move(res));", "mounts_.emplace(key, std::move(res));")]
+
+
+_FP3 = _Fp3()
 SELFTEST = {
     "lookup-with-raw-key": ([(_V, "return mounts_.contains(key);", "return mounts_.contains(filename);")],
                             "R-KEYNORM construct=VFS::ContainsFile(const char *, const char *):mounts_.contains"),
@@ -2750,6 +3106,44 @@ SELFTEST = {
     "copy-loop-while-skips-byte": ([(_V, _COPY_FOR, _COPY_WHILE % "1")], "copies-n-bytes"),
     "control-key-in-local": ([(_V, "    " + _TEST + "\n  }", "    " + _TEST + "\n  }\n  const std::string& key = path.Str();"),
                               (_V, "mounts_.emplace(path.Str(), std::move(res));", "mounts_.emplace(key, std::move(res));")], None),
+    "control-presence-assigned-to-bool-local": (_FP3 % "repeated = mounts_.find(key) != mounts_.end();", None),
+    "control-presence-count-assigned-to-bool-local": (_FP3 % "repeated = mounts_.count(key) > 0;", None),
+    "assigned-presence-local-overwritten": (_FP3 % ("repeated = mounts_.find(key) != mounts_.end();\n"
+                                                    "    repeated = repeated && provider->mount != nullptr;"),
+                                            f"R-ADDFIRST construct={_MOUNT}:mounts_.emplace"),
+    "assigned-presence-local-tests-other-key": (_FP3 % "repeated = mounts_.find(path.Lower().Str()) != mounts_.end();",
+                                                f"R-ADDFIRST construct={_MOUNT}:mounts_.emplace"),
+    "control-contents-owned-through-unique-ptr": (_held(
+        "  std::unique_ptr<" + _VEC + "> contents_;\n",
+        "    contents_ = std::make_unique<" + _VEC + ">(mujoco::user::FileToMemory(file_path.c_str()));\n\n"
+        "    static constexpr std::uint64_t prime = 0x100000001b3;\n\n"
+        "    hash_ = contents_->empty() ? 0 : 0xcbf29ce484222325;\n    for (const std::uint8_t& byte : *contents_) {\n",
+        "    contents_ = std::make_unique<" + _VEC + ">();\n    contents_->reserve(n);\n" +
+        _COPY_FOR.replace("contents_.push_back", "contents_->push_back")), None),
+    "control-contents-single-owner-shared-ptr-range-copy": (_held(
+        "  std::shared_ptr<const " + _VEC + "> contents_;\n",
+        "    contents_ = std::make_shared<const " + _VEC + ">(mujoco::user::FileToMemory(file_path.c_str()));\n\n"
+        "    static constexpr std::uint64_t prime = 0x100000001b3;\n\n"
+        "    hash_ = contents_->empty() ? 0 : 0xcbf29ce484222325;\n    for (const std::uint8_t& byte : *contents_) {\n",
+        "    contents_ = std::make_shared<const " + _VEC + ">(src_bytes, src_bytes + n);\n" + _HASH_LOOP), None),
+    "contents-interned-in-pool-keyed-by-digest": (_held(
+        "  ContentPool::Handle contents_;\n",
+        "    ContentPool::Contents contents = mujoco::user::FileToMemory(file_path.c_str());\n\n"
+        "    static constexpr std::uint64_t prime = 0x100000001b3;\n\n"
+        "    hash_ = contents.empty() ? 0 : 0xcbf29ce484222325;\n    for (const std::uint8_t& byte : contents) {\n",
+        _HASH_LOOP + "    contents_ = ContentPool::Intern(ContentPool::Contents(src_bytes, src_bytes + n), hash_);\n",
+        pre=_POOL) + [(_V, "      hash_ *= prime;\n    }\n  }\n\n  BufferProvider(const char* name, const void* src, size_t n) {",
+                       "      hash_ *= prime;\n    }\n    contents_ = ContentPool::Intern(std::move(contents), hash_);\n  }\n\n"
+                       "  BufferProvider(const char* name, const void* src, size_t n) {")],
+        "R-READBACK construct=BufferProvider:contents-private-copy"),
+    "unique-ptr-contents-copy-skips-byte": (_held(
+        "  std::unique_ptr<" + _VEC + "> contents_;\n",
+        "    contents_ = std::make_unique<" + _VEC + ">(mujoco::user::FileToMemory(file_path.c_str()));\n\n"
+        "    static constexpr std::uint64_t prime = 0x100000001b3;\n\n"
+        "    hash_ = contents_->empty() ? 0 : 0xcbf29ce484222325;\n    for (const std::uint8_t& byte : *contents_) {\n",
+        "    contents_ = std::make_unique<" + _VEC + ">();\n    contents_->reserve(n);\n" +
+        _COPY_FOR.replace("contents_.push_back", "contents_->push_back").replace("size_t i = 0;", "size_t i = 1;")),
+        "copies-n-bytes"),
     "memo-not-invalidated-on-mount": (_MEMO_BASE + [(_V, _ERASE_UNMOUNT, _ERASE_UNMOUNT + "    mount_cache_.clear();\n")],
                                       f"R-DERIVED construct={_MOUNT}:mounts_.emplace invalidates mount_cache_"),
     "memo-only-one-key-removed-on-unmount": (_MEMO_BASE + [(_V, _EMPLACE_MOUNT, _EMPLACE_MOUNT + "  mount_cache_.clear();\n"),
